@@ -279,12 +279,17 @@ def _alarm(signum, frame):
     raise CaseTimeout()
 
 
+HANGS = [0]          # cases on which the implementation did not return in time, this run
+HANG_STOP = 5        # after that many, the remaining cases are not run (a hanging tree must not cost hours)
+
+
 def run_impl_guarded(mod, case, limit=20):
     signal.signal(signal.SIGALRM, _alarm)
-    signal.alarm(limit)
+    signal.alarm(limit if HANGS[0] == 0 else 4)     # once one case has hung, do not wait 20 s for each of the next
     try:
         return mod.run_impl(case)
     except CaseTimeout:
+        HANGS[0] += 1
         return {'hang': True}
     except Exception as e:  # the harness itself must not die on an unexpected escape
         return {'escaped': type(e).__name__, 'msg': str(e)[:200]}
@@ -386,6 +391,9 @@ def evaluate(mod, exe, cases, model_ok):
     """returns (records, driver_error). record = dict(case, impl, model, agree, fail)"""
     recs = []
     for c in cases:
+        if HANGS[0] >= HANG_STOP:
+            log('the implementation hung on %d cases: the remaining %d cases are not run' % (HANGS[0], len(cases) - len(recs)))
+            break
         obs = run_impl_guarded(mod, c)
         recs.append(dict(case=c, impl=obs, model=None, agree=None, fail=None, enc=None, raw=None))
     derr = ''
@@ -410,6 +418,9 @@ def evaluate(mod, exe, cases, model_ok):
             r['fail'] = mod.oracle(r['case'], r['impl'])
         except Exception as ex:
             r['fail'] = 'oracle crashed: %s: %s' % (type(ex).__name__, ex)
+        if not r['fail'] and isinstance(r['impl'], dict) and r['impl'].get('hang') is True and len(r['impl']) == 1:
+            # no answer at all: whatever the property says about this input cannot hold
+            r['fail'] = 'the implementation did not return on this input within the time limit (hang)'
     return recs, derr
 
 
